@@ -33,7 +33,7 @@ func (c11) Meta() fw.Meta {
 			"the oracle uses the per-item clock printed by the commands",
 			"behaviour of sum-diff for a missing destination is not specified by the property (only C16 applies)",
 		},
-		Obligations: []string{"sumcopy_runs", "dest_created", "dest_slots_compared", "sumdiff_clean_after_copy", "sumdiff_detects_perturbation", "sumdiff_records_checked", "perturbed_item_not_last", "coarser_agree_finer_differ", "single_archive_selection", "past_window"},
+		Obligations: []string{"sumcopy_runs", "dest_created", "dest_slots_compared", "sumdiff_clean_after_copy", "sumdiff_detects_perturbation", "sumdiff_records_checked", "perturbed_item_not_last", "coarser_agree_finer_differ", "single_archive_selection", "past_window", "window_beyond_finest_retention", "slow_first_item_runs", "one_ulp_perturbations"},
 		Workers:     12,
 	}
 }
@@ -84,7 +84,7 @@ func (c11) Run(c *fw.Ctx) {
 		c.Count("single_archive_selection", 1)
 	}
 	var from, until int64
-	window := []string{"default", "past", "narrow", "default"}[(c.Index/5)%4]
+	window := []string{"default", "past", "narrow", "beyond-finest", "default"}[(c.Index/5)%5]
 	a0 := l.Archs[0]
 	switch window {
 	case "past":
@@ -94,6 +94,11 @@ func (c11) Run(c *fw.Ctx) {
 	case "narrow":
 		from = now - r.Int63n(a0.Ret()/2+1) - 2
 		until = from + 1 + r.Int63n(3*int64(a0.Step)+1)
+	case "beyond-finest":
+		// wholly older than the finest archive's retention, still covered by the coarser ones (back-filling)
+		until = now - a0.Ret() - 2 - r.Int63n(int64(a0.Step)*3+1)
+		from = until - r.Int63n(l.MaxRet()/2+1) - 1
+		c.Count("window_beyond_finest_retention", 1)
 	}
 	if window != "default" && from < 1 {
 		from = 1
@@ -146,6 +151,33 @@ func (c11) Run(c *fw.Ctx) {
 		args := win([]string{"sum-copy", "-src-base", srcBase, "-item", pat, "-src", "*.wsp", "-dest-base", destBase, "-dest", "sum.wsp",
 			"-agg-method", model.MethodNames[l.Method], "-x-files-factor", strconv.FormatFloat(float64(l.Xff), 'g', -1, 32), "-retentions", l.RetentionString(), "-archive", strconv.Itoa(sel)})
 		pre := map[string][]*wt.TimeSeries{}
+		if pat == "grp*" && window == "default" && c.Index%3 == 2 {
+			// the first item is slow (its first source file is locked for a moment) and meanwhile a fresh point
+			// arrives in the LAST item's sources: every item's window must end at its own clock
+			var grp []string
+			for _, it := range items {
+				if filepath.Dir(it) == "." {
+					grp = append(grp, it)
+				}
+			}
+			if len(grp) >= 2 {
+				hold, err := wt.Open(filepath.Join(srcBase, grp[0], tree.Items[grp[0]][0]))
+				if err == nil {
+					lastItem := grp[len(grp)-1]
+					go func() {
+						time.Sleep(time.Duration(1200+r.Intn(600)) * time.Millisecond)
+						if db, err := wt.Open(filepath.Join(srcBase, lastItem, tree.Items[lastItem][0])); err == nil {
+							tn := time.Now().Unix()
+							db.UpdatePointsForArchive([]wt.Point{{Time: u32(tn), Value: 12345.5}}, 0, u32(tn))
+							db.Sync()
+							db.Close()
+						}
+						hold.Close()
+					}()
+					c.Count("slow_first_item_runs", 1)
+				}
+			}
+		}
 		res := runCLI(c, args...)
 		det := fw.J{"scenario": sc, "run": res.brief()}
 		c.Count("sumcopy_runs", 1)
@@ -267,8 +299,15 @@ func (c11) Run(c *fw.Ctx) {
 				}
 			}
 			v := wt.Value(float64(r.Intn(100000)) + 0.5)
-			if r.Intn(3) == 0 {
+			switch r.Intn(4) {
+			case 0:
 				v = wt.Value(math.NaN())
+			case 1:
+				// deviate by one unit in the last place from what the destination holds now
+				if cur, err := db.FetchFromArchive(ai, u32(t-1), u32(t), u32(pnow)); err == nil && cur != nil && len(cur.Values()) > 0 && !math.IsNaN(float64(cur.Values()[0])) {
+					v = wt.Value(math.Nextafter(float64(cur.Values()[0]), math.Inf(1)))
+					c.Count("one_ulp_perturbations", 1)
+				}
 			}
 			if err := db.UpdatePointsForArchive([]wt.Point{{Time: u32(t), Value: v}}, ai, u32(pnow)); err != nil {
 				panic(err)
